@@ -55,6 +55,28 @@ Definition chol_backward (L Lbar : 'M[F]_n) : 'M[F]_n :=
    x + diag(ones * (sigsq_init + jitter)); the input vector is (x flattened, sigsq_init) *)
 Definition addjitter (X : 'M[F]_n) (sigsq jitter : F) : 'M[F]_n := X + (sigsq + jitter)%:M.
 
+(* AddJitterOp forward WITH the retry loop.  [oracle] = outcome of spl.cholesky at each attempt
+   (true = succeeded), one entry per round the jitter upper bound allows; the jitter values
+   tried are 0, init, init*growth, init*growth^2, ... with
+   init = initial_jitter_factor * max(1, mean(diag x)) (an input here):
+       jitter = 0.0
+       while must_increase_jitter and jitter <= jitter_upperbound:
+           try:  x_plus_constant = x + identity * (sigsq_init + jitter); cholesky(...)
+           except LinAlgError:
+               jitter = initial_jitter if jitter == 0.0 else jitter * jitter_growth
+   [None] = the assertion "jitter has reached its upperbound" fails. *)
+Fixpoint jitter_loop (oracle : list bool) (jitter init growth : F) : option F :=
+  match oracle with
+  | [::] => None
+  | ok :: r => if ok then Some jitter
+               else jitter_loop r (if jitter == 0 then init else jitter * growth) init growth
+  end.
+Definition addjitter_op (X : 'M[F]_n) (sigsq init growth : F) (oracle : list bool) : option 'M[F]_n :=
+  omap (fun j => addjitter X sigsq j) (jitter_loop oracle 0 init growth).
+(* the documented sequence of jitter values: 0, init, init*growth, ... *)
+Definition jitter_seq (init growth : F) (k : nat) : F :=
+  if k is k'.+1 then init * growth ^+ k' else 0.
+
 (* AddJitterOp_vjp: g |-> append(reshape(g, (-1,)), sum(diag(g))): the pair
    (cotangent of x, cotangent of sigsq_init) *)
 Definition addjitter_vjp (G : 'M[F]_n) : 'M[F]_n * F := (G, \tr G).
@@ -111,6 +133,22 @@ Definition f_chol_backward (n : nat) (L Lbar : fmat) : fmat :=
 (* AddJitterOp_vjp: flattened g followed by the sum of its diagonal *)
 Definition f_addjitter_vjp (n : nat) (G : fmat) : list float :=
   concat G ++ [fsum (map (fun i => fent G i i) (seq 0 n))].
+
+(* AddJitterOp forward with the retry loop (see [jitter_loop] above), binary64 *)
+Fixpoint f_jitter_loop (oracle : list bool) (jitter init growth : float) : option float :=
+  match oracle with
+  | [] => None
+  | ok :: r => if ok then Some jitter
+               else f_jitter_loop r (if PrimFloat.eqb jitter PrimFloat.zero then init
+                                     else PrimFloat.mul jitter growth) init growth
+  end.
+Definition f_addjitter_op (n : nat) (X : fmat) (sigsq init growth : float) (oracle : list bool) : option fmat :=
+  match f_jitter_loop oracle PrimFloat.zero init growth with
+  | None => None
+  | Some j =>
+      let c := PrimFloat.mul PrimFloat.one (PrimFloat.add sigsq j) in   (* np.ones((n,)) * constant *)
+      Some (fbuild n (fun i k => PrimFloat.add (fent X i k) (if Nat.eqb i k then c else PrimFloat.zero)))
+  end.
 
 (* comparison helpers for the driver *)
 Definition fclose (tol a b : float) : bool := PrimFloat.leb (PrimFloat.abs (PrimFloat.sub a b)) tol.
